@@ -445,6 +445,12 @@ impl Report {
 
         if unlisted > 0 {
             1
+        } else if self.samples.is_empty() {
+            println!(
+                "HARNESS-ERROR property={} the evidence carries no sample case; fix the monitor",
+                args.prop
+            );
+            3
         } else if self.evaluations == 0 || self.distinct_count() < 2 {
             println!(
                 "HARNESS-ERROR property={} the monitor observed nothing; this is not a pass",
